@@ -731,7 +731,6 @@ func (e *Enc) evalCall(n *SCall, ctx *SpecCtx) (SV, error) {
 		}
 		c2 := ctx.withState(ctx.old)
 		c2.locals = false
-		c2.results = nil
 		return e.evalSpec(n.Args[0], c2)
 	case "len":
 		v, err := arg(0)
@@ -879,9 +878,40 @@ func (e *Enc) evalCall(n *SCall, ctx *SpecCtx) (SV, error) {
 		cn := fmt.Sprintf("%s%d_%s", n.Fn, idx, sanitize(name))
 		c := e.callGhost(fmt.Sprintf("%s%d_", n.Fn, idx), n.Args[0].String())
 		if c == nil {
+			// never called here: the ghost is an arbitrary value of the right sort, if we can tell it
+			if fn := e.w.Funcs[name]; fn != nil {
+				var t types.Type
+				if n.Fn == "lastret" && idx < fn.Signature.Results().Len() {
+					t = fn.Signature.Results().At(idx).Type()
+				} else if n.Fn == "lastarg" && idx < len(fn.Params) {
+					t = fn.Params[idx].Type()
+				}
+				if t != nil {
+					c = e.comp(cn, e.sortOf(t), "ghost", "G:calls:"+name)
+				}
+			}
+		}
+		if c == nil {
 			return SV{}, fmt.Errorf("%s(%s): no such call in this function (component %s unknown)", n.Fn, name, cn)
 		}
 		var typ types.Type
+		if dot := strings.LastIndex(name, "."); dot > 0 && !strings.Contains(name, "(") && !strings.Contains(name, "/") {
+			// Iface.Method of an in-module interface
+			if obj := e.lookupPkgObject(ctx.pkg, name[:dot]); obj != nil {
+				if it, ok := obj.Type().Underlying().(*types.Interface); ok {
+					for i := 0; i < it.NumMethods(); i++ {
+						if it.Method(i).Name() == name[dot+1:] {
+							sg := it.Method(i).Type().(*types.Signature)
+							if n.Fn == "lastarg" && idx >= 1 && idx-1 < sg.Params().Len() {
+								typ = sg.Params().At(idx - 1).Type()
+							} else if n.Fn == "lastret" && idx < sg.Results().Len() {
+								typ = sg.Results().At(idx).Type()
+							}
+						}
+					}
+				}
+			}
+		}
 		if fn := e.w.Funcs[name]; fn != nil {
 			if n.Fn == "lastret" && idx < fn.Signature.Results().Len() {
 				typ = fn.Signature.Results().At(idx).Type()
@@ -1009,6 +1039,20 @@ func (e *Enc) evalCall(n *SCall, ctx *SpecCtx) (SV, error) {
 		}
 		c2 := ctx.withState(ls)
 		return e.evalSpec(n.Args[0], c2)
+	case "deref":
+		// deref(p): content of the cell p points to (pointer to a non-struct value)
+		v, err := arg(0)
+		if err != nil {
+			return SV{}, err
+		}
+		pt, ok := v.Typ.Underlying().(*types.Pointer)
+		if !ok {
+			return SV{}, fmt.Errorf("deref of non-pointer %v", v.Typ)
+		}
+		c := e.cellComp(pt.Elem())
+		r := SV{T: sel(e.get(ctx.cur, c), v.T), Sort: e.sortOf(pt.Elem()), Typ: pt.Elem()}
+		e.specLoadFact(r.T, r.Sort, ctx.cur)
+		return r, nil
 	case "peerstr":
 		v, err := arg(0)
 		if err != nil {
